@@ -21,6 +21,9 @@ static void honest_gen(Plan *p, uint64_t run_seed, uint64_t variant, int tier)
 	if (rng_chance(&g, 1, 3)) p->cred_mode |= 8;       /* 8 = the TLS_CONNECT objects are re-used, not fresh */
 	if (p->mutual && rng_chance(&g, 1, 6)) p->cred_mode = (p->cred_mode & ~1) | 128;      /* 128 = the client's leaf alone is larger than the server's chain */
 	if (p->proto == P_TLS13 && rng_chance(&g, 1, 6)) p->cred_mode |= 256;    /* 256 = every writing round starts with a zero-length write (TLS 1.3) */
+	/* 512 = the server is another stack: between its writes it sends correctly protected records of another inner type (a
+	 * post-handshake NewSessionTicket).  tls13_recv() refuses each of them, once, and the data around them still arrives */
+	if (p->proto == P_TLS13 && rng_chance(&g, 1, 6)) { p->cred_mode |= 512; p->eagain = 0; }   /* (the hand-made record goes out through tls_record_send, which cannot resume after EAGAIN) */
 	if (p->proto != P_TLS13 && rng_chance(&g, 1, 8)) p->cred_mode |= 32;     /* 32 = one entropy draw fails during a data write and the application writes again */
 	if (rng_chance(&g, 1, 8)) p->cred_mode = (p->cred_mode & ~1) | 16;     /* 16 = chains of the largest admissible size, minus (plan_seed mod 10) bytes */
 }
@@ -53,7 +56,7 @@ void honest_oracle(const Plan *p, const HonestOut *o, RunResult *r)
 		}
 	}
 	for (int s = 0; s < 2; s++)
-		if (o->recv_errs[s]) {
+		if (o->recv_errs[s] > ((p->cred_mode & 512) ? o->odd_sent[1 - s] : 0)) {    /* one refusal per record of a kind tls13_recv() does not deliver */
 			rr_violation(r, "stream_short", "proto=%s %s: recv returned an error %d time(s) on an untampered connection",
 				g_proto_names[p->proto], s ? "server" : "client", o->recv_errs[s]);
 			return;
